@@ -53,3 +53,26 @@ Definition nest2_case : wire :=
    [2; 0; 4; 0; 0; 0; 0; 1; 1; 3; 0; 1; 0];
    [7; 0; 0; 2];
    [7; 0; 0; 4]].
+
+(* try_except (0,1) over a nested node (1,0) over the body [n0: emit, schedule(+2); n1: throws "hgv boom 7"]
+   (corpus/nest/kf_wake_lost_try_nested_body.case): the thrower sits two levels below the try_except *)
+Definition try_nested_boom_case : wire :=
+  [[1; 1; 9];
+   [2; 0; 0; 0; 1; 0; 1; 0; 0];
+   [3; 0; 0; (-1); 1; 1; 0];
+   [3; 0; 0; 0; 6; 1; 0];
+   [3; 0; 0; 0; 1; 3; 0];
+   [3; 0; 0; 1; 6; 2; 0];
+   [2; 0; 1; 2; 0; 0; 1; 1; 0; 0; 0; 1; 0];
+   [5; 0; 1; 1; 0; 1; 0; 0; 0];
+   [2; 1; 0; 1; 0; 0; 1; 1; 0; (-1); 0; 1; 0];
+   [5; 1; 0; 2; 1; 1; 0; 0; 0];
+   [2; 2; 0; 0; 1; 0; 1; 1; 0; (-1); 0; 1; 1];
+   [3; 2; 0; (-2); 6; 10; 0];
+   [3; 2; 0; 0; 6; 10; 0];
+   [3; 2; 0; 0; 1; 2; 0];
+   [2; 2; 1; 0; 0; 0; 1; 1; 0; 0; 0; 1; 1];
+   [3; 2; 1; (-2); 6; 0; 0];
+   [3; 2; 1; 0; 8; 7; 0];
+   [2; 0; 2; 0; 0; 0; 0; 1; 1; 1; 0; 1; 0];
+   [2; 0; 3; 0; 0; 0; 0; 1; 1; 1; 1; 1; 0]].
